@@ -113,6 +113,21 @@ def run(ck):
         if rt > 1e-9 * max(1.0, float(numpy.abs(y).max())) * N or numpy.abs(numpy.array(back.axis.data)[:N] - td).max() > 1e-9 * max(1.0, abs(td).max()):
             ck.fail("roundtrip:%s:%s" % ("upper" if upper else "complete", "odd" if N % 2 else "even"),
                     "transforming and inverse-transforming does not return the original values on the original axis", inp, rt)
+        # the same inside a units context: neither transform may depend on the units that happen to be current
+        try:
+            uc = rng.choice(["1/cm", "eV", "THz"])
+            with energy_units(uc):
+                Fu = f.get_Fourier_transform()
+                bu = numpy.array(Fu.get_inverse_Fourier_transform().data)
+                bu2 = numpy.array(F.get_inverse_Fourier_transform().data)
+            du = max(float(numpy.abs(numpy.array(Fu.data) - Fd).max()) / sc,
+                     float(numpy.abs(bu - bd).max()), float(numpy.abs(bu2 - bd).max()))
+            ck.resid("transforms inside a units context vs outside", du)
+            if du > 1e-9 * N:
+                ck.fail("roundtrip:units-context", "Fourier transform or its inverse gives other values inside energy_units(%r)" % uc,
+                        dict(inp, units=uc), du)
+        except Exception as e:
+            ck.fail("raises:ft:units-context", "transform inside a units context raised %r" % (e,), inp)
         if not upper:
             z = complex(math.cos(2 * PI / N), math.sin(2 * PI / N))
             emit("ft %d %s %s %s" % (N, cfrac(dt), cfrac(z), " ".join(cfrac(v) for v in y)), " ".join(cfrac(v) for v in Fd), "ft")
